@@ -40,7 +40,8 @@ package p9
 //
 //@ func chunk
 //@   requires[C11] chunkSize >= 1
-//@   requires[C11] ghost("$sum", int) == 0 && ghost("$allfull", bool) && ghost("$lasterr", error) == nil && ncalls("fn") == 0
+//@   requires[C11] ncalls("fn") == 0
+//@   ghostinit $sum:int = 0, $allfull:bool = true, $lasterr:error = nil
 //@   modifies $sum, $allfull, $lasterr
 //@   at fn requires[C11] @offset-follows-data arg1 == offset0 + int64(ghost("$sum", int))
 //@   at fn requires[C11] @chunk-is-next-window arr(arg0) == arr(p) && off(arg0) == off(p) + ghost("$sum", int) && len(arg0) == min(int(chunkSize), len(p) - ghost("$sum", int))
@@ -941,16 +942,57 @@ package p9
 // ---- transport as seen by the server loop (bodies: see the codec section) ----------
 // recv/send touch message objects, byte buffers and nothing of the session.
 //@ group transportFrame
-//@   modifies implsof(message), arrays(byte), arrays(string), arrays(QID), arrays(Dirent), type:buffer, $ret.tag, $sent, $consumed
+//@   modifies implsof(message), arrays(byte), arrays(string), arrays(QID), arrays(Dirent), type:buffer, $ret.tag, $wr, $rd
 
+// The message interfaces as seen by the transport.
+//@ interface message.encode
+//@   modifies $wr, b.data, arrays(byte), implsof(message)
+//@   maypanic
+//@ interface message.decode
+//@   modifies $rd, b.data, b.overflow, implsof(message), arrays(string), arrays(QID), arrays(Dirent)
+//@ interface message.typ
+//@ interface message.String
+//@ interface payloader.FixedSize
+//@ interface payloader.Payload
+//@ interface payloader.SetPayload
+//@   modifies implsof(payloader)
+//@ interface payloader.PayloadCleanup
+//@   modifies arrays(byte), implsof(payloader)
+
+//@ constglobal ErrNoValidMessage = nonnil [C02,C06]
+
+// recv (C02): header first; a size below 7 or above min(msize, 4 MiB) ends the
+// connection without touching the body; a rejected but well-delimited frame is
+// drained by exactly size-7 bytes; nothing larger than the accepted size is
+// allocated; no message is returned together with an error.
 //@ func recv
-//@   abstract
 //@   use transportFrame
+//@   modifies $consumed, $drained, $ncalls, $n.*, arrays(error), arrays([]byte), type:ConnError, type:ErrMessageTooLarge
 //@   ghost set $ret.tag:tag = result0
+//@   allocbound[C02] int(msize)
+//@   at (*sync.Pool).Get assume typeis(ret0, *[]byte) && unbox(ret0, *[]byte) != nil
+//@   at io.LimitReader requires[C02,C01] @drains-exactly-the-declared-body arg1 == int64(size) - 7
+//@   at io.LimitReader requires[C02] @drains-only-accepted-sizes 7 <= size && size <= msize && size <= maximumLength
+//@   at lookup requires[C02] @looks-up-only-accepted-sizes 7 <= size && size <= msize && size <= maximumLength
+//@   at lookup requires[C01,C02] @header-fields-little-endian size == uint32(hdr[0]) | uint32(hdr[1]) << 8 | uint32(hdr[2]) << 16 | uint32(hdr[3]) << 24 && arg1 == msgType(hdr[4]) && arg0 == tag(uint16(hdr[5]) | uint16(hdr[6]) << 8)
+//@   at (vecnet.Buffers).ReadFrom requires[C02,C17] @reads-body-only-for-accepted-sizes 7 <= size && size <= msize && size <= maximumLength
+//@   at message.decode requires[C02,C18] @decodes-only-a-completely-read-body ncalls("(vecnet.Buffers).ReadFrom") == 1 || remaining == 0
 //@   ensures[C02,C06] @message-iff-no-error (result2 == nil) == (result1 != nil)
+//@   ensures[C02] @tiny-or-oversized-frame-ends-connection ncalls("lookup") == 0 ==> typeis(result2, ConnError) && 0 <= ghost("$consumed", int) - old(ghost("$consumed", int)) && ghost("$consumed", int) - old(ghost("$consumed", int)) <= 7 && ncalls("io.LimitReader") == 0 && ncalls("(vecnet.Buffers).ReadFrom") == 0
+//@   ensures[C02] @never-drains-twice ncalls("io.LimitReader") <= 1 && ncalls("(vecnet.Buffers).ReadFrom") <= 1 && ncalls("io.LimitReader") + ncalls("(vecnet.Buffers).ReadFrom") <= 1
+//@   safety[C02]
+
+// send (C01): size[4] type[1] tag[2], then the fixed part and the payload, in
+// one WriteTo.
 //@ func send
-//@   abstract
 //@   use transportFrame
+//@   modifies $written, $ncalls, $n.*, arrays(error), arrays([]byte), type:ConnError
+//@   at (*sync.Pool).Get assume typeis(ret0, *[]byte) && unbox(ret0, *[]byte) != nil
+//@   at (*buffer).Write32 requires[C01,C13] @size-field-is-the-frame-length arg0 == 7 + uint32(len(dataBuf.data)) + ite(implements(m, payloader), uint32(len(p)), 0)
+//@   at (*buffer).WriteTag requires[C01,C06] @tag-field arg0 == tag
+//@   at (*net.Buffers).WriteTo requires[C01,C06] @header-then-fixed-then-payload ncalls("(*buffer).Write32") == 1 && ncalls("(*buffer).WriteMsgType") == 1 && ncalls("(*buffer).WriteTag") == 1 && len(*recv) >= 1 && arr((*recv)[0]) == arr(headerBuf.data) && len((*recv)[0]) == 7
+//@   ensures[C01,C06] @one-contiguous-write ncalls("(*net.Buffers).WriteTo") == 1
+//@   safety[C02]
 
 //@ func (*registry).put
 //@   abstract
@@ -1036,6 +1078,7 @@ package p9
 //@   modifies b.data, arrays(byte)
 //@   ensures[C01,C02] @grows-by-n len(b.data) == old(len(b.data)) + n
 //@   ensures[C01,C02] @prefix-preserved sameelems(b.data, old(b.data), old(len(b.data)))
+//@   ensures[C01,C02] @in-place-when-capacity-allows old(len(b.data)) + n <= old(cap(b.data)) ==> arr(b.data) == old(arr(b.data)) && off(b.data) == old(off(b.data)) && cap(b.data) == old(cap(b.data))
 //@   ensures[C01,C02] @returns-the-new-tail arr(result) == arr(b.data) && off(result) == off(b.data) + old(len(b.data)) && len(result) == n
 //@   safety[C02]
 //@   nopanic
@@ -1054,24 +1097,28 @@ package p9
 //@   modifies $rd, b.data, b.overflow
 
 //@ func (*buffer).Write8
+//@   ensures[C01,C02] @in-place-when-capacity-allows old(len(b.data)) + 1 <= old(cap(b.data)) ==> arr(b.data) == old(arr(b.data)) && off(b.data) == old(off(b.data)) && cap(b.data) == old(cap(b.data))
 //@   ensures[C01,C02] @bytes-appended-little-endian sameelems(b.data, old(b.data), old(len(b.data))) && b.data[old(len(b.data)) + 0] == uint8(v >> 0)
 //@   nopanic
 //@   use wrFrame
 //@   ensures[C01,C13] len(b.data) == old(len(b.data)) + 1
 //@   bridge_ensures[C01] wr(b) == snoc8(old(wr(b)), v) && sameWrExcept(b)
 //@ func (*buffer).Write16
+//@   ensures[C01,C02] @in-place-when-capacity-allows old(len(b.data)) + 2 <= old(cap(b.data)) ==> arr(b.data) == old(arr(b.data)) && off(b.data) == old(off(b.data)) && cap(b.data) == old(cap(b.data))
 //@   ensures[C01,C02] @bytes-appended-little-endian sameelems(b.data, old(b.data), old(len(b.data))) && b.data[old(len(b.data)) + 0] == uint8(v >> 0) && b.data[old(len(b.data)) + 1] == uint8(v >> 8)
 //@   nopanic
 //@   use wrFrame
 //@   ensures[C01,C13] len(b.data) == old(len(b.data)) + 2
 //@   bridge_ensures[C01] wr(b) == snoc16(old(wr(b)), v) && sameWrExcept(b)
 //@ func (*buffer).Write32
+//@   ensures[C01,C02] @in-place-when-capacity-allows old(len(b.data)) + 4 <= old(cap(b.data)) ==> arr(b.data) == old(arr(b.data)) && off(b.data) == old(off(b.data)) && cap(b.data) == old(cap(b.data))
 //@   ensures[C01,C02] @bytes-appended-little-endian sameelems(b.data, old(b.data), old(len(b.data))) && b.data[old(len(b.data)) + 0] == uint8(v >> 0) && b.data[old(len(b.data)) + 1] == uint8(v >> 8) && b.data[old(len(b.data)) + 2] == uint8(v >> 16) && b.data[old(len(b.data)) + 3] == uint8(v >> 24)
 //@   nopanic
 //@   use wrFrame
 //@   ensures[C01,C13] len(b.data) == old(len(b.data)) + 4
 //@   bridge_ensures[C01] wr(b) == snoc32(old(wr(b)), v) && sameWrExcept(b)
 //@ func (*buffer).Write64
+//@   ensures[C01,C02] @in-place-when-capacity-allows old(len(b.data)) + 8 <= old(cap(b.data)) ==> arr(b.data) == old(arr(b.data)) && off(b.data) == old(off(b.data)) && cap(b.data) == old(cap(b.data))
 //@   ensures[C01,C02] @bytes-appended-little-endian sameelems(b.data, old(b.data), old(len(b.data))) && b.data[old(len(b.data)) + 0] == uint8(v >> 0) && b.data[old(len(b.data)) + 1] == uint8(v >> 8) && b.data[old(len(b.data)) + 2] == uint8(v >> 16) && b.data[old(len(b.data)) + 3] == uint8(v >> 24) && b.data[old(len(b.data)) + 4] == uint8(v >> 32) && b.data[old(len(b.data)) + 5] == uint8(v >> 40) && b.data[old(len(b.data)) + 6] == uint8(v >> 48) && b.data[old(len(b.data)) + 7] == uint8(v >> 56)
 //@   nopanic
 //@   use wrFrame
@@ -1139,16 +1186,19 @@ package p9
 
 // typed wrappers: proved against the primitives
 //@ group w8
+//@   ensures[C01,C02] @in-place-when-capacity-allows old(len(b.data)) + 1 <= old(cap(b.data)) ==> arr(b.data) == old(arr(b.data)) && off(b.data) == old(off(b.data)) && cap(b.data) == old(cap(b.data))
 //@   use wrFrame
 //@   ensures[C01,C13] len(b.data) == old(len(b.data)) + 1
 //@   ensures[C01] wr(b) == snoc8(old(wr(b)), uint8(arg1)) && sameWrExcept(b)
 //@   nopanic
 //@ group w16
+//@   ensures[C01,C02] @in-place-when-capacity-allows old(len(b.data)) + 2 <= old(cap(b.data)) ==> arr(b.data) == old(arr(b.data)) && off(b.data) == old(off(b.data)) && cap(b.data) == old(cap(b.data))
 //@   use wrFrame
 //@   ensures[C01,C13] len(b.data) == old(len(b.data)) + 2
 //@   ensures[C01] wr(b) == snoc16(old(wr(b)), uint16(arg1)) && sameWrExcept(b)
 //@   nopanic
 //@ group w32
+//@   ensures[C01,C02] @in-place-when-capacity-allows old(len(b.data)) + 4 <= old(cap(b.data)) ==> arr(b.data) == old(arr(b.data)) && off(b.data) == old(off(b.data)) && cap(b.data) == old(cap(b.data))
 //@   use wrFrame
 //@   ensures[C01,C13] len(b.data) == old(len(b.data)) + 4
 //@   ensures[C01] wr(b) == snoc32(old(wr(b)), uint32(arg1)) && sameWrExcept(b)
@@ -1185,9 +1235,11 @@ package p9
 //@   ensures[C01,C18] !old(b.overflow) && has8(old(rd(b))) ==> result == QIDType(take8(old(rd(b)))) && rd(b) == drop8(old(rd(b))) && !b.overflow
 //@ func (*buffer).ReadMsgType
 //@   use rsticky
+//@   ensures[C01,C02] @reads-the-byte old(len(b.data)) >= 1 ==> result == msgType(old(b.data[0])) && arr(b.data) == old(arr(b.data)) && off(b.data) == old(off(b.data)) + 1 && len(b.data) == old(len(b.data)) - 1
 //@   ensures[C01,C18] !old(b.overflow) && has8(old(rd(b))) ==> result == msgType(take8(old(rd(b)))) && rd(b) == drop8(old(rd(b))) && !b.overflow
 //@ func (*buffer).ReadTag
 //@   use rsticky
+//@   ensures[C01,C02] @reads-little-endian old(len(b.data)) >= 2 ==> result == tag(uint16(old(b.data[0])) | uint16(old(b.data[1])) << 8) && arr(b.data) == old(arr(b.data)) && off(b.data) == old(off(b.data)) + 2 && len(b.data) == old(len(b.data)) - 2
 //@   ensures[C01,C18] !old(b.overflow) && has16(old(rd(b))) ==> result == tag(take16(old(rd(b)))) && rd(b) == drop16(old(rd(b))) && !b.overflow
 //@ func (*buffer).ReadFID
 //@   use rsticky
@@ -1484,3 +1536,228 @@ package p9
 //@   loop 0 invariant[C13] 0 <= rangeindex + 1 && rangeindex + 1 <= len(r.Entries)
 //@   loop 0 invariant[C13] 0 <= payloadSize && payloadSize <= int(r.Count) && payloadSize <= len(entriesBuf.data)
 //@   loop 0 invariant[C13] r.Count == old(r.Count) && wr(b) == old(wr(b)) && b.data == old(b.data)
+
+//@ fparam recv.lookup
+//@   params t, mt
+//@   results m, err
+//@   ensures (err == nil) == (m != nil)
+
+// =============================================================================
+// Client side (C03 client half, C10, C11, C12, C13)
+// =============================================================================
+//@ constglobal ErrOutOfTags = nonnil [C03,C10]
+//@ constglobal ErrOutOfFIDs = nonnil [C03,C10]
+//@ constglobal ErrUnexpectedTag = nonnil [C10]
+//@ constglobal ErrVersionsExhausted = nonnil [C12]
+//@ constglobal ErrBadVersionString = nonnil [C12]
+//@ ghostvar $sr.err error
+//@ ghostvar $sum int
+//@ ghostvar $allfull bool
+
+// sendRecv transmits tm and fills rm from the reply of the same type, or
+// returns the server's errno / a transport error (body: see C10 section).
+//@ func (*Client).sendRecv
+//@   abstract
+//@   modifies implsof(message), arrays(byte), arrays(string), arrays(QID), arrays(Dirent), $lasterr
+//@   ghost set $lasterr:error = result
+//@ func (*Client).newFile
+//@   abstract
+//@   fresh
+//@   ensures result != nil && result.client == c && result.fid == fid && result.closed == 0
+//@ func (*pool).Get
+//@   abstract
+//@   modifies p.cache, p.start, arrays(uint64), $got
+//@   ghost set $got:uint64 = result0
+//@   ensures[C10] result1 ==> result0 < p.limit
+//@ func (*pool).Put
+//@   abstract
+//@   modifies p.cache, arrays(uint64)
+//@ ghostvar $got uint64
+//@ inline versionSupportsTucreation, versionSupportsTwalkgetattr
+
+//@ group clientMethod
+//@   modifies *
+//@   requires[C03,C10] c.client != nil
+//@ func (*clientFile).StatFS
+//@   use clientMethod
+//@   ensures[C03] @closed-handle-ebadf old(c.closed) != 0 ==> errIs(result1, linux.EBADF) && ncalls("(*Client).sendRecv") == 0
+//@   at (*Client).sendRecv requires[C03] @request-type-defined-for-the-version typeis(arg0, *tstatfs)
+//@   at (*Client).sendRecv requires[C03] @tstatfs-carries-the-arguments typeis(arg0, *tstatfs) ==> unbox(arg0, *tstatfs).fid == c.fid
+//@   ensures[C03] @one-request old(c.closed) == 0 ==> ncalls("(*Client).sendRecv") <= 1
+//@   ensures[C03] @error-is-the-servers ncalls("(*Client).sendRecv") == 1 ==> result1 == ghost("$lasterr", error)
+//@   ensures[C03] @returns-the-reply-fields result1 == nil ==> result0 == rstatfs.FSStat
+//@ func (*clientFile).FSync
+//@   use clientMethod
+//@   ensures[C03] @closed-handle-ebadf old(c.closed) != 0 ==> errIs(result, linux.EBADF) && ncalls("(*Client).sendRecv") == 0
+//@   at (*Client).sendRecv requires[C03] @request-type-defined-for-the-version typeis(arg0, *tfsync)
+//@   at (*Client).sendRecv requires[C03] @tfsync-carries-the-arguments typeis(arg0, *tfsync) ==> unbox(arg0, *tfsync).fid == c.fid
+//@   ensures[C03] @one-request old(c.closed) == 0 ==> ncalls("(*Client).sendRecv") <= 1
+//@   ensures[C03] @error-is-the-servers ncalls("(*Client).sendRecv") == 1 ==> result == ghost("$lasterr", error)
+//@ func (*clientFile).GetAttr
+//@   use clientMethod
+//@   ensures[C03] @closed-handle-ebadf old(c.closed) != 0 ==> errIs(result3, linux.EBADF) && ncalls("(*Client).sendRecv") == 0
+//@   at (*Client).sendRecv requires[C03] @request-type-defined-for-the-version typeis(arg0, *tgetattr)
+//@   at (*Client).sendRecv requires[C03] @tgetattr-carries-the-arguments typeis(arg0, *tgetattr) ==> unbox(arg0, *tgetattr).fid == c.fid && unbox(arg0, *tgetattr).AttrMask == req
+//@   ensures[C03] @one-request old(c.closed) == 0 ==> ncalls("(*Client).sendRecv") <= 1
+//@   ensures[C03] @error-is-the-servers ncalls("(*Client).sendRecv") == 1 ==> result3 == ghost("$lasterr", error)
+//@   ensures[C03] @returns-the-reply-fields result3 == nil ==> result0 == rgetattr.QID && result1 == rgetattr.Valid && result2 == rgetattr.Attr
+//@ func (*clientFile).SetAttr
+//@   use clientMethod
+//@   ensures[C03] @closed-handle-ebadf old(c.closed) != 0 ==> errIs(result, linux.EBADF) && ncalls("(*Client).sendRecv") == 0
+//@   at (*Client).sendRecv requires[C03] @request-type-defined-for-the-version typeis(arg0, *tsetattr)
+//@   at (*Client).sendRecv requires[C03] @tsetattr-carries-the-arguments typeis(arg0, *tsetattr) ==> unbox(arg0, *tsetattr).fid == c.fid && unbox(arg0, *tsetattr).Valid == valid && unbox(arg0, *tsetattr).SetAttr == attr
+//@   ensures[C03] @one-request old(c.closed) == 0 ==> ncalls("(*Client).sendRecv") <= 1
+//@   ensures[C03] @error-is-the-servers ncalls("(*Client).sendRecv") == 1 ==> result == ghost("$lasterr", error)
+//@ func (*clientFile).Lock
+//@   use clientMethod
+//@   ensures[C03] @closed-handle-ebadf old(c.closed) != 0 ==> errIs(result1, linux.EBADF) && ncalls("(*Client).sendRecv") == 0
+//@   at (*Client).sendRecv requires[C03] @request-type-defined-for-the-version typeis(arg0, *tlock)
+//@   at (*Client).sendRecv requires[C03] @tlock-carries-the-arguments typeis(arg0, *tlock) ==> unbox(arg0, *tlock).fid == c.fid && unbox(arg0, *tlock).Type == locktype && unbox(arg0, *tlock).Flags == flags && unbox(arg0, *tlock).Start == start && unbox(arg0, *tlock).Length == length && unbox(arg0, *tlock).PID == int32(pid) && unbox(arg0, *tlock).Client == client
+//@   ensures[C03] @one-request old(c.closed) == 0 ==> ncalls("(*Client).sendRecv") <= 1
+//@   ensures[C03] @error-is-the-servers ncalls("(*Client).sendRecv") == 1 ==> result1 == ghost("$lasterr", error)
+//@   ensures[C03] @returns-the-reply-fields ncalls("(*Client).sendRecv") == 1 ==> result0 == r.Status
+//@ func (*clientFile).Open
+//@   use clientMethod
+//@   ensures[C03] @closed-handle-ebadf old(c.closed) != 0 ==> errIs(result2, linux.EBADF) && ncalls("(*Client).sendRecv") == 0
+//@   at (*Client).sendRecv requires[C03] @request-type-defined-for-the-version typeis(arg0, *tlopen)
+//@   at (*Client).sendRecv requires[C03] @tlopen-carries-the-arguments typeis(arg0, *tlopen) ==> unbox(arg0, *tlopen).fid == c.fid && unbox(arg0, *tlopen).Flags == flags
+//@   ensures[C03] @one-request old(c.closed) == 0 ==> ncalls("(*Client).sendRecv") <= 1
+//@   ensures[C03] @error-is-the-servers ncalls("(*Client).sendRecv") == 1 ==> result2 == ghost("$lasterr", error)
+//@   ensures[C03] @returns-the-reply-fields result2 == nil ==> result0 == rlopen.QID && result1 == rlopen.IoUnit
+//@ func (*clientFile).Readlink
+//@   use clientMethod
+//@   ensures[C03] @closed-handle-ebadf old(c.closed) != 0 ==> errIs(result1, linux.EBADF) && ncalls("(*Client).sendRecv") == 0
+//@   at (*Client).sendRecv requires[C03] @request-type-defined-for-the-version typeis(arg0, *treadlink)
+//@   at (*Client).sendRecv requires[C03] @treadlink-carries-the-arguments typeis(arg0, *treadlink) ==> unbox(arg0, *treadlink).fid == c.fid
+//@   ensures[C03] @one-request old(c.closed) == 0 ==> ncalls("(*Client).sendRecv") <= 1
+//@   ensures[C03] @error-is-the-servers ncalls("(*Client).sendRecv") == 1 ==> result1 == ghost("$lasterr", error)
+//@   ensures[C03] @returns-the-reply-fields result1 == nil ==> result0 == rreadlink.Target
+//@ func (*clientFile).UnlinkAt
+//@   use clientMethod
+//@   ensures[C03] @closed-handle-ebadf old(c.closed) != 0 ==> errIs(result, linux.EBADF) && ncalls("(*Client).sendRecv") == 0
+//@   at (*Client).sendRecv requires[C03] @request-type-defined-for-the-version typeis(arg0, *tunlinkat)
+//@   at (*Client).sendRecv requires[C03] @tunlinkat-carries-the-arguments typeis(arg0, *tunlinkat) ==> unbox(arg0, *tunlinkat).Directory == c.fid && unbox(arg0, *tunlinkat).Name == name && unbox(arg0, *tunlinkat).Flags == flags
+//@   ensures[C03] @one-request old(c.closed) == 0 ==> ncalls("(*Client).sendRecv") <= 1
+//@   ensures[C03] @error-is-the-servers ncalls("(*Client).sendRecv") == 1 ==> result == ghost("$lasterr", error)
+//@ func (*clientFile).Readdir
+//@   use clientMethod
+//@   ensures[C03] @closed-handle-ebadf old(c.closed) != 0 ==> errIs(result1, linux.EBADF) && ncalls("(*Client).sendRecv") == 0
+//@   at (*Client).sendRecv requires[C03] @request-type-defined-for-the-version typeis(arg0, *treaddir)
+//@   at (*Client).sendRecv requires[C03] @treaddir-carries-the-arguments typeis(arg0, *treaddir) ==> unbox(arg0, *treaddir).Directory == c.fid && unbox(arg0, *treaddir).Offset == offset && unbox(arg0, *treaddir).Count == count
+//@   ensures[C03] @one-request old(c.closed) == 0 ==> ncalls("(*Client).sendRecv") <= 1
+//@   ensures[C03] @error-is-the-servers ncalls("(*Client).sendRecv") == 1 ==> result1 == ghost("$lasterr", error)
+//@   ensures[C03] @returns-the-reply-fields result1 == nil ==> result0 == rreaddir.Entries
+//@ func (*clientFile).Rename
+//@   use clientMethod
+//@   ensures[C03] @closed-handle-ebadf old(c.closed) != 0 ==> errIs(result, linux.EBADF) && ncalls("(*Client).sendRecv") == 0
+//@   at (*Client).sendRecv requires[C03] @request-type-defined-for-the-version typeis(arg0, *trename)
+//@   at (*Client).sendRecv requires[C03] @trename-carries-the-arguments typeis(arg0, *trename) ==> unbox(arg0, *trename).fid == c.fid && unbox(arg0, *trename).Directory == unbox(dir, *clientFile).fid && unbox(arg0, *trename).Name == name
+//@   ensures[C03] @one-request old(c.closed) == 0 ==> ncalls("(*Client).sendRecv") <= 1
+//@   ensures[C03] @error-is-the-servers ncalls("(*Client).sendRecv") == 1 ==> result == ghost("$lasterr", error)
+//@   ensures[C03] @foreign-directory-ebadf old(c.closed) == 0 && !typeis(dir, *clientFile) ==> errIs(result, linux.EBADF) && ncalls("(*Client).sendRecv") == 0
+//@ func (*clientFile).RenameAt
+//@   use clientMethod
+//@   ensures[C03] @closed-handle-ebadf old(c.closed) != 0 ==> errIs(result, linux.EBADF) && ncalls("(*Client).sendRecv") == 0
+//@   at (*Client).sendRecv requires[C03] @request-type-defined-for-the-version typeis(arg0, *trenameat)
+//@   at (*Client).sendRecv requires[C03] @trenameat-carries-the-arguments typeis(arg0, *trenameat) ==> unbox(arg0, *trenameat).OldDirectory == c.fid && unbox(arg0, *trenameat).OldName == oldname && unbox(arg0, *trenameat).NewDirectory == unbox(newdir, *clientFile).fid && unbox(arg0, *trenameat).NewName == newname
+//@   ensures[C03] @one-request old(c.closed) == 0 ==> ncalls("(*Client).sendRecv") <= 1
+//@   ensures[C03] @error-is-the-servers ncalls("(*Client).sendRecv") == 1 ==> result == ghost("$lasterr", error)
+//@ func (*clientFile).Link
+//@   use clientMethod
+//@   ensures[C03] @closed-handle-ebadf old(c.closed) != 0 ==> errIs(result, linux.EBADF) && ncalls("(*Client).sendRecv") == 0
+//@   at (*Client).sendRecv requires[C03] @request-type-defined-for-the-version typeis(arg0, *tlink)
+//@   at (*Client).sendRecv requires[C03] @tlink-carries-the-arguments typeis(arg0, *tlink) ==> unbox(arg0, *tlink).Directory == c.fid && unbox(arg0, *tlink).Target == unbox(target, *clientFile).fid && unbox(arg0, *tlink).Name == newname
+//@   ensures[C03] @one-request old(c.closed) == 0 ==> ncalls("(*Client).sendRecv") <= 1
+//@   ensures[C03] @error-is-the-servers ncalls("(*Client).sendRecv") == 1 ==> result == ghost("$lasterr", error)
+//@ func (*clientFile).Mkdir
+//@   use clientMethod
+//@   ensures[C03] @closed-handle-ebadf old(c.closed) != 0 ==> errIs(result1, linux.EBADF) && ncalls("(*Client).sendRecv") == 0
+//@   at (*Client).sendRecv requires[C03] @request-type-defined-for-the-version typeis(arg0, *tumkdir) || typeis(arg0, *tmkdir)
+//@   at (*Client).sendRecv requires[C03] @tumkdir-carries-the-arguments typeis(arg0, *tumkdir) ==> c.client.version >= 3 && unbox(arg0, *tumkdir).tmkdir.Directory == c.fid && unbox(arg0, *tumkdir).tmkdir.Name == name && unbox(arg0, *tumkdir).tmkdir.Permissions == permissions && unbox(arg0, *tumkdir).tmkdir.GID == gid && unbox(arg0, *tumkdir).UID == uid
+//@   at (*Client).sendRecv requires[C03] @tmkdir-carries-the-arguments typeis(arg0, *tmkdir) ==> c.client.version < 3 && unbox(arg0, *tmkdir).Directory == c.fid && unbox(arg0, *tmkdir).Name == name && unbox(arg0, *tmkdir).Permissions == permissions && unbox(arg0, *tmkdir).GID == NoGID
+//@   ensures[C03] @one-request old(c.closed) == 0 ==> ncalls("(*Client).sendRecv") <= 1
+//@   ensures[C03] @error-is-the-servers ncalls("(*Client).sendRecv") == 1 ==> result1 == ghost("$lasterr", error)
+//@   ensures[C03] @returns-the-reply-fields result1 == nil && c.client.version >= 3 ==> result0 == rumkdir.rmkdir.QID
+//@   ensures[C03] @returns-the-reply-fields result1 == nil && c.client.version < 3 ==> result0 == rmkdir.QID
+//@ func (*clientFile).Symlink
+//@   use clientMethod
+//@   ensures[C03] @closed-handle-ebadf old(c.closed) != 0 ==> errIs(result1, linux.EBADF) && ncalls("(*Client).sendRecv") == 0
+//@   at (*Client).sendRecv requires[C03] @request-type-defined-for-the-version typeis(arg0, *tusymlink) || typeis(arg0, *tsymlink)
+//@   at (*Client).sendRecv requires[C03] @tusymlink-carries-the-arguments typeis(arg0, *tusymlink) ==> c.client.version >= 3 && unbox(arg0, *tusymlink).tsymlink.Directory == c.fid && unbox(arg0, *tusymlink).tsymlink.Name == newname && unbox(arg0, *tusymlink).tsymlink.Target == oldname && unbox(arg0, *tusymlink).tsymlink.GID == gid && unbox(arg0, *tusymlink).UID == uid
+//@   at (*Client).sendRecv requires[C03] @tsymlink-carries-the-arguments typeis(arg0, *tsymlink) ==> c.client.version < 3 && unbox(arg0, *tsymlink).Directory == c.fid && unbox(arg0, *tsymlink).Name == newname && unbox(arg0, *tsymlink).Target == oldname && unbox(arg0, *tsymlink).GID == NoGID
+//@   ensures[C03] @one-request old(c.closed) == 0 ==> ncalls("(*Client).sendRecv") <= 1
+//@   ensures[C03] @error-is-the-servers ncalls("(*Client).sendRecv") == 1 ==> result1 == ghost("$lasterr", error)
+//@   ensures[C03] @returns-the-reply-fields result1 == nil && c.client.version >= 3 ==> result0 == rusymlink.rsymlink.QID
+//@   ensures[C03] @returns-the-reply-fields result1 == nil && c.client.version < 3 ==> result0 == rsymlink.QID
+//@ func (*clientFile).Mknod
+//@   use clientMethod
+//@   ensures[C03] @closed-handle-ebadf old(c.closed) != 0 ==> errIs(result1, linux.EBADF) && ncalls("(*Client).sendRecv") == 0
+//@   at (*Client).sendRecv requires[C03] @request-type-defined-for-the-version typeis(arg0, *tumknod) || typeis(arg0, *tmknod)
+//@   at (*Client).sendRecv requires[C03] @tumknod-carries-the-arguments typeis(arg0, *tumknod) ==> c.client.version >= 3 && unbox(arg0, *tumknod).tmknod.Directory == c.fid && unbox(arg0, *tumknod).tmknod.Name == name && unbox(arg0, *tumknod).tmknod.Mode == mode && unbox(arg0, *tumknod).tmknod.Major == major && unbox(arg0, *tumknod).tmknod.Minor == minor && unbox(arg0, *tumknod).tmknod.GID == gid && unbox(arg0, *tumknod).UID == uid
+//@   at (*Client).sendRecv requires[C03] @tmknod-carries-the-arguments typeis(arg0, *tmknod) ==> c.client.version < 3 && unbox(arg0, *tmknod).Directory == c.fid && unbox(arg0, *tmknod).Name == name && unbox(arg0, *tmknod).Mode == mode && unbox(arg0, *tmknod).Major == major && unbox(arg0, *tmknod).Minor == minor && unbox(arg0, *tmknod).GID == NoGID
+//@   ensures[C03] @one-request old(c.closed) == 0 ==> ncalls("(*Client).sendRecv") <= 1
+//@   ensures[C03] @error-is-the-servers ncalls("(*Client).sendRecv") == 1 ==> result1 == ghost("$lasterr", error)
+//@   ensures[C03] @returns-the-reply-fields result1 == nil && c.client.version >= 3 ==> result0 == rumknod.rmknod.QID
+//@   ensures[C03] @returns-the-reply-fields result1 == nil && c.client.version < 3 ==> result0 == rmknod.QID
+//@ func (*clientFile).Create
+//@   use clientMethod
+//@   ensures[C03] @closed-handle-ebadf old(c.closed) != 0 ==> errIs(result3, linux.EBADF) && ncalls("(*Client).sendRecv") == 0
+//@   at (*Client).sendRecv requires[C03] @request-type-defined-for-the-version typeis(arg0, *tucreate) || typeis(arg0, *tlcreate)
+//@   at (*Client).sendRecv requires[C03] @tucreate-carries-the-arguments typeis(arg0, *tucreate) ==> c.client.version >= 3 && unbox(arg0, *tucreate).tlcreate.fid == c.fid && unbox(arg0, *tucreate).tlcreate.Name == name && unbox(arg0, *tucreate).tlcreate.OpenFlags == openFlags && unbox(arg0, *tucreate).tlcreate.Permissions == permissions && unbox(arg0, *tucreate).tlcreate.GID == gid && unbox(arg0, *tucreate).UID == uid
+//@   at (*Client).sendRecv requires[C03] @tlcreate-carries-the-arguments typeis(arg0, *tlcreate) ==> c.client.version < 3 && unbox(arg0, *tlcreate).fid == c.fid && unbox(arg0, *tlcreate).Name == name && unbox(arg0, *tlcreate).OpenFlags == openFlags && unbox(arg0, *tlcreate).Permissions == permissions && unbox(arg0, *tlcreate).GID == NoGID
+//@   ensures[C03] @one-request old(c.closed) == 0 ==> ncalls("(*Client).sendRecv") <= 1
+//@   ensures[C03] @error-is-the-servers ncalls("(*Client).sendRecv") == 1 ==> result3 == ghost("$lasterr", error)
+//@   ensures[C03] @returns-the-reply-fields result3 == nil && c.client.version >= 3 ==> result1 == rucreate.rlcreate.rlopen.QID && result2 == rucreate.rlcreate.rlopen.IoUnit
+//@   ensures[C03] @returns-the-reply-fields result3 == nil && c.client.version < 3 ==> result1 == rlcreate.rlopen.QID && result2 == rlcreate.rlopen.IoUnit
+//@ func (*clientFile).Walk
+//@   use clientMethod
+//@   ensures[C03] @closed-handle-ebadf old(c.closed) != 0 ==> errIs(result2, linux.EBADF) && ncalls("(*Client).sendRecv") == 0
+//@   at (*Client).sendRecv requires[C03] @request-type-defined-for-the-version typeis(arg0, *twalk)
+//@   at (*Client).sendRecv requires[C03] @twalk-carries-the-arguments typeis(arg0, *twalk) ==> unbox(arg0, *twalk).fid == c.fid && unbox(arg0, *twalk).newFID == fid(ghost("$got", uint64)) && unbox(arg0, *twalk).Names == names
+//@   ensures[C03] @one-request old(c.closed) == 0 ==> ncalls("(*Client).sendRecv") <= 1
+//@   ensures[C03] @error-is-the-servers ncalls("(*Client).sendRecv") == 1 ==> result2 == ghost("$lasterr", error)
+//@   ensures[C03] @returns-the-reply-fields result2 == nil ==> result0 == rwalk.QIDs
+//@   at (*pool).Put requires[C10] @fid-released-only-when-the-binding-was-refused ghost("$lasterr", error) != nil && ncalls("(*Client).sendRecv") == 1 && arg0 == ghost("$got", uint64)
+//@   at (*Client).newFile requires[C10] @handle-only-for-a-bound-fid ghost("$lasterr", error) == nil && ncalls("(*Client).sendRecv") == 1 && arg0 == fid(ghost("$got", uint64))
+//@ func (*clientFile).Close
+//@   use clientMethod
+//@   ensures[C03,C10] @closed-handle-ebadf old(c.closed) != 0 ==> errIs(result, linux.EBADF) && ncalls("(*Client).sendRecv") == 0
+//@   at (*Client).sendRecv requires[C03] @request-type-defined-for-the-version typeis(arg0, *tclunk)
+//@   at (*Client).sendRecv requires[C03] @tclunk-carries-the-arguments typeis(arg0, *tclunk) ==> unbox(arg0, *tclunk).fid == c.fid
+//@   ensures[C03] @one-request old(c.closed) == 0 ==> ncalls("(*Client).sendRecv") <= 1
+//@   ensures[C03] @error-is-the-servers ncalls("(*Client).sendRecv") == 1 ==> result == ghost("$lasterr", error)
+//@   at (*pool).Put requires[C10] @fid-released-only-after-confirmed-clunk ghost("$lasterr", error) == nil && ncalls("(*Client).sendRecv") == 1 && arg0 == uint64(c.fid)
+//@   ensures[C10] @marks-closed c.closed != 0
+//@   ensures[C10] @at-most-one-release ncalls("(*pool).Put") <= 1
+//@ func (*clientFile).Remove
+//@   use clientMethod
+//@   ensures[C03,C10] @closed-handle-ebadf old(c.closed) != 0 ==> errIs(result, linux.EBADF) && ncalls("(*Client).sendRecv") == 0
+//@   at (*Client).sendRecv requires[C03] @request-type-defined-for-the-version typeis(arg0, *tremove)
+//@   at (*Client).sendRecv requires[C03] @tremove-carries-the-arguments typeis(arg0, *tremove) ==> unbox(arg0, *tremove).fid == c.fid
+//@   ensures[C03] @one-request old(c.closed) == 0 ==> ncalls("(*Client).sendRecv") <= 1
+//@   ensures[C03] @error-is-the-servers ncalls("(*Client).sendRecv") == 1 ==> result == ghost("$lasterr", error)
+//@   at (*pool).Put requires[C10] @fid-released-only-after-confirmed-remove ghost("$lasterr", error) == nil && ncalls("(*Client).sendRecv") == 1 && arg0 == uint64(c.fid)
+//@   ensures[C10] @marks-closed c.closed != 0
+//@   ensures[C10] @at-most-one-release ncalls("(*pool).Put") <= 1
+//@ func (*clientFile).readAt
+//@   use clientMethod
+//@   ensures[C03,C11] @closed-handle-ebadf old(c.closed) != 0 ==> errIs(result1, linux.EBADF) && ncalls("(*Client).sendRecv") == 0
+//@   at (*Client).sendRecv requires[C03,C11,C13] @one-tread-for-the-whole-chunk typeis(arg0, *tread) && unbox(arg0, *tread).fid == c.fid && unbox(arg0, *tread).Offset == uint64(offset) && unbox(arg0, *tread).Count == uint32(len(p)) && typeis(arg1, *rread) && unbox(arg1, *rread).Data == p
+//@   ensures[C11] @one-request old(c.closed) == 0 ==> ncalls("(*Client).sendRecv") == 1
+//@   ensures[C11] @count-is-reply-length result1 == nil ==> result0 == len(rread.Data) && result0 > 0 || len(p) == 0
+//@   ensures[C11] @empty-reply-is-eof old(c.closed) == 0 && ghost("$lasterr", error) == nil && len(rread.Data) == 0 && len(p) > 0 ==> result0 == 0 && result1 == io.EOF
+//@   ensures[C11] @eof-only-for-empty-reply old(c.closed) == 0 && result1 == io.EOF && ghost("$lasterr", error) == nil ==> result0 == 0 && len(p) > 0
+//@ func (*clientFile).writeAt
+//@   use clientMethod
+//@   ensures[C03,C11] @closed-handle-ebadf old(c.closed) != 0 ==> errIs(result1, linux.EBADF) && ncalls("(*Client).sendRecv") == 0
+//@   at (*Client).sendRecv requires[C03,C11,C13] @one-twrite-for-the-whole-chunk typeis(arg0, *twrite) && unbox(arg0, *twrite).fid == c.fid && unbox(arg0, *twrite).Offset == uint64(offset) && unbox(arg0, *twrite).Data == p
+//@   ensures[C11] @one-request old(c.closed) == 0 ==> ncalls("(*Client).sendRecv") == 1
+//@   ensures[C11] @count-is-the-servers result1 == nil ==> result0 == int(rwrite.Count)
+//@ func (*clientFile).ReadAt
+//@   use clientMethod
+//@   requires[C11,C13] @client-invariant-payload-size c.client.payloadSize >= 1
+//@   at chunk requires[C11,C13] @chunks-of-the-payload-size arg0 == c.client.payloadSize && arg2 == p && arg3 == offset
+//@ func (*clientFile).WriteAt
+//@   use clientMethod
+//@   requires[C11,C13] @client-invariant-payload-size c.client.payloadSize >= 1
+//@   at chunk requires[C11,C13] @chunks-of-the-payload-size arg0 == c.client.payloadSize && arg2 == p && arg3 == offset
